@@ -98,6 +98,7 @@ Scenarios == {s \in UNION {Multisets(KvPool, n) \cup Multisets(TokPool, n) : n \
 NoExtra == {}
 Race3 == {<<"p2", "p5", "p6">>}
 Race4 == {<<"p2", "p3", "p5", "p6">>}
+Three == {<<"p2", "p5", "p6">>, <<"p2", "p8", "p9">>, <<"p3", "p5", "p10">>, <<"t1", "t3", "t8">>, <<"t1", "t2", "play3">>, <<"t3", "t8", "sa10">>, <<"sa10", "sa4", "sa16">>}
 FourProc == {<<"p2", "p3", "p5", "p6">>, <<"p2", "p5", "p8", "p9">>, <<"p5", "p6", "p8", "p10">>, <<"p2", "p7", "p8", "p9">>,
              <<"t1", "t2", "t3", "sa10">>, <<"t1", "t8", "sa4", "play3">>, <<"t3", "sa10", "sa16", "play3">>,
              <<"t1", "t3", "t4", "t8">>, <<"sa10", "sa4", "sa16", "sn4">>}
